@@ -16,7 +16,7 @@
    without x (C04_first_call_safe; holds since f1bf5e1 stores _size before x -- the schedule that failed
    before is kept as a replayed regression case). *)
 From Coq Require Import ZArith List Bool.
-From PB Require Import C04.Sched C04.Model C04.Proofs C04.Model2D C04.Proofs2D C04.Model2DS C04.Proofs2DS.
+From PB Require Import C04.Sched C04.Model C04.Proofs C04.Model2D C04.Proofs2D C04.Model2DS C04.Proofs2DS C04.Config.
 Import ListNotations.
 Open Scope Z_scope.
 
@@ -140,6 +140,30 @@ Example C04_spline2d_nonvacuous :
        (coldS, [init_localS [UseShapeS; Spl2 5 3; Lazy2; Lazy2]; init_localS [UseShapeS; Spl2 5 3; Lazy2; Lazy2]])))
     = [0; 0].
 Proof. exact spline2d_examples. Qed.
+
+(* CONFIGURATION attributes (_dtype; likewise _check_finite, banded_solver, _sort_order, _inverted_order) as a
+   read-only shared cell (coq/C04/Config.v): if no thread program contains a store to the cell - which is the
+   harness obligation "no store to a configuration attribute during any replayed call" - then for ANY number of
+   threads and ANY schedule the cell keeps its value and every call's entry read (which decides the dtype of that
+   call's result) returns the configured value, i.e. the serial result's dtype. *)
+Theorem C04_config_readonly_safe : forall (c0 : option Z) (progs : list (list cop)) (sched : list nat),
+  Forall no_write progs ->
+  fst (crun sched c0 progs) = c0 /\
+  length (snd (crun sched c0 progs)) = length progs /\
+  Forall (fun l => Forall (fun o => o = c0) (couts l)) (snd (crun sched c0 progs)).
+Proof. exact config_readonly_safe. Qed.
+Print Assumptions C04_config_readonly_safe.
+
+(* the hypothesis is needed: a wrapper that clears the cell around an inner call and restores it (a transient
+   store) gives another thread's outer call the wrong dtype under some schedule, while the serial schedule is fine *)
+Theorem C04_config_transient_write_refuted :
+  map couts (snd (crun [0; 0; 1; 1; 1; 1; 1; 0; 0; 0]%nat (Some 32) [wrapper_prog; wrapper_prog]))
+    = [[Some 32; Some 32]; [None; None]] /\
+  map couts (snd (crun (repeat 0%nat 5 ++ repeat 1%nat 5) (Some 32) [wrapper_prog; wrapper_prog]))
+    = [[None; Some 32]; [None; Some 32]] /\
+  ~ no_write wrapper_prog.
+Proof. exact config_transient_write_refuted. Qed.
+Print Assumptions C04_config_transient_write_refuted.
 
 (* REFUTED on the current tree: adaptive_minmax(poly_order=2) on a shared object with x present.
    Thread 0 pre-empted after k of its accesses, thread 1 run to completion:
